@@ -1,17 +1,101 @@
-(* C14 — Field set, removal and extraction agree with each other.  Statements only. *)
-From Coq Require Import List ZArith String Bool.
-From SMD Require Import Model.Value Model.Order Model.PathElem Model.PathSet Model.Schema
-  Model.FieldSet Model.Remove Spec.Examples.
-Import ListNotations.
-Open Scope string_scope.
+(* C14 — Field set, removal and extraction agree with each other.  Statements only;
+   proofs in Proofs/{FieldSetMirrors,FieldSetBase,FieldSetShape,FieldSetPaths,RemoveBase,
+   ExtractBase,ExtractLaws,RemoveAbsent,FieldSetLaws}.v.
 
-(* removing nothing keeps a non-empty object of a granular map type as it is at the top
-   level (one unfolding of the walker); the general frame theorem is in progress *)
-Theorem C14_extract_all_example :
-  let v := VMap [("aa", VInt 1); ("items", VList [VMap [("name", VStr "a"); ("vv", VInt 2)]]); ("mm", VMap [("k", VInt 3)])] in
-  match to_field_set ex_schema ex_rt v with
-  | Some fs => extract ex_schema ex_rt false v (ps_leaves fs) = v /\ remove ex_schema ex_rt v ps_empty_set = v
-  | None => False
-  end.
-Proof. vm_compute. split; reflexivity. Qed.
-Print Assumptions C14_extract_all_example.
+   [to_field_set], [remove], [extract] (Model/FieldSet.v, Model/Remove.v) are the
+   transliterations of ToFieldSet, RemoveItems, ExtractItems; [present] is the
+   independent path resolver (Spec/Resolve.v).  Hypotheses as in C11 ([schema_ok],
+   [family_refs]).  [keys_closed items] says that the removal set never names a key
+   field of a list member without naming the member -- the property's "key fields of
+   surviving items excluded"; without it the law is false (last theorem).  Not yet
+   proved about the model: "otherwise equals the original", validity and content of the
+   extraction with keys, and merge of the two parts -- decided on the implementation's
+   outcomes by the extracted checkers. *)
+From Coq Require Import List ZArith String Bool.
+From SMD Require Import Model.Value Model.Order Model.PathElem Model.PathSet Model.Schema Model.Walk
+  Model.FieldSet Model.Remove Spec.PathsAsSets Spec.RefValid Spec.Resolve Spec.Examples
+  Proofs.OrderLaws Proofs.PathSetLaws Proofs.SchemaOk Proofs.RemoveAbsent Proofs.FieldSetLaws.
+Import ListNotations.
+Open Scope list_scope.
+
+Theorem C14_field_set_is_wf :
+  forall (s : schema) (R : typeref -> Prop) (tr : typeref) (v : value),
+         schema_ok s R ->
+         R tr ->
+         family_refs s R ->
+         wf_value v = true ->
+         conforms s tr true v = true ->
+         exists fs : pset, to_field_set s tr v = Some fs /\ ps_ok fs = true.
+Proof. exact to_field_set_ok_family. Qed.
+Print Assumptions C14_field_set_is_wf.
+
+Theorem C14_paths_designate_nodes :
+  forall (s : schema) (R : typeref -> Prop) (tr : typeref) (v : value) 
+           (fs : pset) (p : path),
+         schema_ok s R ->
+         R tr ->
+         wf_value v = true ->
+         conforms s tr true v = true ->
+         to_field_set s tr v = Some fs ->
+         wf_path p = true -> ps_has p fs = true -> present s tr v p = true.
+Proof. exact field_set_paths_resolve. Qed.
+Print Assumptions C14_paths_designate_nodes.
+
+Theorem C14_remove_nothing :
+  forall (s : schema) (R : typeref -> Prop) (tr : typeref) (v : value),
+         schema_ok s R ->
+         R tr ->
+         wf_value v = true ->
+         conforms s tr true v = true ->
+         plain v = true ->
+         match kind_of s tr v with
+         | KMap _ _ | KList _ _ => True
+         | _ => False
+         end -> remove s tr v ps_empty_set = v.
+Proof. exact remove_nothing. Qed.
+Print Assumptions C14_remove_nothing.
+
+Theorem C14_extract_all_leaves :
+  forall (s : schema) (R : typeref -> Prop) (tr : typeref) (v : value) (fs : pset),
+         schema_ok s R ->
+         R tr ->
+         wf_value v = true ->
+         conforms s tr false v = true ->
+         plain v = true ->
+         to_field_set s tr v = Some fs -> extract s tr false v (ps_leaves fs) = v.
+Proof. exact extract_all_leaves. Qed.
+Print Assumptions C14_extract_all_leaves.
+
+Theorem C14_removal_leaves_no_member :
+  forall (s : schema) (R : typeref -> Prop) (tr : typeref) (v : value) 
+           (items : pset) (p : path),
+         schema_ok s R ->
+         R tr ->
+         wf_value v = true ->
+         conforms s tr false v = true ->
+         ps_ok items = true ->
+         keys_closed items ->
+         wf_path p = true ->
+         ps_has p items = true -> present s tr (remove s tr v items) p = false.
+Proof. exact remove_absent_keys_closed. Qed.
+Print Assumptions C14_removal_leaves_no_member.
+
+Theorem C14_removal_needs_keys_closed :
+  ~
+         (forall (s : schema) (R : typeref -> Prop) (tr : typeref) (v : value) 
+            (items : pset) (p : path),
+          schema_ok s R ->
+          R tr ->
+          wf_value v = true ->
+          conforms s tr false v = true ->
+          ps_ok items = true ->
+          wf_path p = true ->
+          ps_has p items = true -> present s tr (remove s tr v items) p = false).
+Proof. exact remove_absent_false. Qed.
+Print Assumptions C14_removal_needs_keys_closed.
+
+(* non-vacuity *)
+Theorem C14_hypotheses_satisfiable :
+  schema_ok ex_schema ex_R /\ family_refs ex_schema ex_R /\ ex_R ex_rt /\ keys_closed ps_empty_set.
+Proof. exact (conj ex_schema_ok (conj ex_family (conj ex_R_root keys_closed_empty))). Qed.
+Print Assumptions C14_hypotheses_satisfiable.
